@@ -34,6 +34,13 @@ def main():
         if a.relock:
             run.write_lock()
             print("lock rewritten for %s: %d obligations" % (a.pid, sum(1 for o in run.sink.obls if o.status == "discharged")))
+        if os.environ.get("PVC_DUMP"):
+            # PVC_DUMP=<substring of obligation name>:<dir> writes the SMT-LIB text of matching obligations
+            pat, _, d = os.environ["PVC_DUMP"].partition("@")
+            os.makedirs(d or "/tmp/pv/dump", exist_ok=True)
+            for o in run.sink.obls:
+                if pat in o.name and o.backend == "smt":
+                    open(os.path.join(d or "/tmp/pv/dump", o.name.replace("/", "_").replace(":", "__") + ".smt2"), "w").write(o.smt2())
         if os.environ.get("PVC_TIMES"):
             for o in sorted(run.sink.obls, key=lambda o: -o.time)[:25]:
                 print("  %.2fs %s %s %s [%s]" % (o.time, o.status, o.solver, o.name, o.meta.get("label")))
